@@ -1,7 +1,7 @@
 #!/usr/bin/env python3
 # generates the per-clause preservation lemmas of one group of the invariant (mechanical)
 import re, sys
-src=open('/root/scratch/c08/coq/Proofs/CloseProtoInv.v').read()
+src=open('/verif/coq/Proofs/CloseProtoInv.v').read()
 rec=src[src.index('Record Inv (s : state) : Prop := {')+len('Record Inv (s : state) : Prop := {'):]
 rec=rec[:rec.index('\n}.')]
 # strip comments
